@@ -224,6 +224,22 @@ def main():
             # (b) the upstream accepts TCP but never answers, and further TCP queries keep trickling in: each of them must
             # still get SERVFAIL within the bound (the first one is the one at risk)
             ts = []
+
+            def very_late():
+                # (c) meanwhile, on the same upstream connection, a reply that takes 40 s -- longer than any per-query patience a
+                # server may have short of its overall bound: exactly one response (the answer or a server failure), and whichever
+                # it was, the query after it must be answered again
+                c = new_case("late", delay=40.0)
+                plans[c].variant = "tcp-very-late"
+                one_tcp(c, "second", 170.0)
+                time.sleep(1.0)
+                c = new_case("ok")
+                plans[c].variant = "tcp-after-very-late-reply"
+                one_tcp(c, "second", 20.0)
+
+            t = threading.Thread(target=very_late)
+            t.start()
+            ts.append(t)
             for k in range(3):
                 c = new_case("silent")
                 plans[c].variant = "tcp-silent-trickle"
